@@ -35,18 +35,30 @@ pub struct Sys {
 
 // ------------------------------------------------------------------ reference arithmetic
 fn dense_of(s: &Sys) -> Vec<Vec<f64>> { let mut a = vec![vec![0.0; s.n]; s.n]; for &(i, j, v) in &s.trip { a[i][j] += v; } a }
-fn norm2_dd(v: &[f64]) -> f64 { let mut s = DD::ZERO; for &x in v { s = s.add(DD::prod(x, x)); } s.sqrt().to_f64() }
+/// power of two that brings m to order 1 (so that squares neither overflow nor underflow); 1 for 0 / non-finite
+fn pscale(m: f64) -> f64 { if m > 0.0 && m.is_finite() { 2f64.powi(-(m.log2().floor() as i32).clamp(-1000, 1000)) } else { 1.0 } }
+fn scaled_norm_dd(v: &[DD]) -> f64 {
+    let m = v.iter().fold(0.0f64, |m, x| m.max(x.hi.abs()));
+    if !(m > 0.0) { return 0.0; }
+    if !m.is_finite() { return f64::INFINITY; }
+    let sc = pscale(m);
+    let mut s = DD::ZERO; for x in v { let y = x.mulf(sc); s = s.add(y.mul(y)); }
+    s.sqrt().to_f64() / sc
+}
+/// ||v||_2 in double-double, safe at every scale (the code under test squares unscaled entries; the reference must not)
+fn norm2_dd(v: &[f64]) -> f64 { if v.iter().any(|x| x.is_nan()) { return f64::NAN; } scaled_norm_dd(&v.iter().map(|x| DD::from(*x)).collect::<Vec<DD>>()) }
 /// ||b - A x||_2 from the dense copy, double-double
 fn true_res(a: &[Vec<f64>], b: &[f64], x: &[f64]) -> f64 {
-    let mut s = DD::ZERO;
+    let mut rs = Vec::with_capacity(b.len());
     for i in 0..b.len() {
         let mut r = DD::from(b[i]);
         for j in 0..x.len() { if a[i][j] != 0.0 { r = r.sub(DD::prod(a[i][j], x[j])); } }
-        s = s.add(r.mul(r));
+        if r.hi.is_nan() { return f64::NAN; }
+        rs.push(r);
     }
-    s.sqrt().to_f64()
+    scaled_norm_dd(&rs)
 }
-fn frob(a: &[Vec<f64>]) -> f64 { let mut s = DD::ZERO; for r in a { for &v in r { s = s.add(DD::prod(v, v)); } } s.sqrt().to_f64() }
+fn frob(a: &[Vec<f64>]) -> f64 { norm2_dd(&a.iter().flatten().cloned().collect::<Vec<f64>>()) }
 fn max_row_nnz(a: &[Vec<f64>]) -> usize { a.iter().map(|r| r.iter().filter(|v| **v != 0.0).count()).max().unwrap_or(0) }
 fn all_finite(x: &[f64]) -> bool { x.iter().all(|v| v.is_finite()) }
 fn jbits(x: &[f64]) -> Value { Value::from(x.iter().map(|v| bits(*v)).collect::<Vec<String>>()) }
@@ -204,6 +216,92 @@ fn build_struct(case: &Value) -> Sys {
     Sys { n, trip, b, x0, kap: 0.0, ainv: 0.0, xref: None }
 }
 
+/// Systems with known eigenvectors for the "one-step collapse" class (C08 implication only): a step of the iteration can
+/// shrink the residual by many orders of magnitude at once when the current residual is (almost) an eigenvector.
+/// Fields: es (shape), n, seed, bm (right-hand-side mode), de (delta = 10^-de), guess ("zero" | "small").
+///   shapes: diag, sym (Householder Q D Q^T), tri2 / gen2 (2x2 nonsymmetric, real eigenvalues), tri (3..4 triangular),
+///           blocks (block diagonal of nonsymmetric 2x2 blocks; b lives in one block)
+///   bm: "sum"  b = v_i + delta v_j;  "sum3"  b = v_i + v_j + delta v_k;
+///       "perp" b = (part of v_j orthogonal to v_i) + delta v_i   (then the residual after the first half step is almost v_i)
+pub const EIG_SHAPES: [&str; 6] = ["diag", "sym", "tri2", "gen2", "tri", "blocks"];
+fn build_eig(case: &Value) -> Sys {
+    let es = gets(case, "es"); let mut n = getu(case, "n");
+    let mut rng = rng(geti(case, "seed") as u64, 13); let rng = &mut rng;
+    if es == "tri2" || es == "gen2" { n = 2; } else if es == "blocks" { n = 2 * (n / 2).max(1); } else if es == "tri" { n = n.clamp(3, 4); }
+    let mut a = vec![vec![0.0f64; n]; n];
+    // eigenvector list (columns), filled per shape
+    let mut vs: Vec<Vec<f64>> = vec![];
+    let unit = |k: usize| -> Vec<f64> { (0..n).map(|i| if i == k { 1.0 } else { 0.0 }).collect() };
+    let lam = |rng: &mut StdRng| -> f64 { [1.0, 2.0, 3.0, 5.0, 0.5, 7.0, -2.0, 4.0][rng.gen_range(0..8)] * if rng.gen_bool(0.3) { rng.gen_range(0.5..=1.5) } else { 1.0 } };
+    let tri_block = |rng: &mut StdRng, a: &mut Vec<Vec<f64>>, o: usize, vs: &mut Vec<Vec<f64>>, n: usize| {
+        // [[l1, c], [0, l2]] or its transpose: eigenvectors e1 and (c, l2 - l1)
+        let l1 = [1.0, 2.0, 3.0, 0.5][rng.gen_range(0..4)]; let mut l2 = [2.0, 3.0, 5.0, 4.0][rng.gen_range(0..4)]; if l2 == l1 { l2 += 1.0; }
+        let c = [1.0, -1.0, 2.0, 0.5, 3.0][rng.gen_range(0..5)];
+        let lower = rng.gen_bool(0.4);
+        a[o][o] = l1; a[o + 1][o + 1] = l2; if lower { a[o + 1][o] = c; } else { a[o][o + 1] = c; }
+        let mut v1 = vec![0.0; n]; let mut v2 = vec![0.0; n];
+        if lower { v1[o + 1] = 1.0; v2[o] = l1 - l2; v2[o + 1] = c; } else { v1[o] = 1.0; v2[o] = c; v2[o + 1] = l2 - l1; }
+        vs.push(v1); vs.push(v2);
+    };
+    match es {
+        "diag" => { for i in 0..n { a[i][i] = lam(rng) + i as f64 * 0.25; vs.push(unit(i)); } }
+        "sym" => { let u: Vec<f64> = { let v: Vec<f64> = (0..n).map(|_| rng.gen_range(-1.0..=1.0)).collect(); let nr = norm2_dd(&v); v.iter().map(|x| x / nr).collect() };
+            let q: Vec<Vec<f64>> = (0..n).map(|i| (0..n).map(|j| (if i == j { 1.0 } else { 0.0 }) - 2.0 * u[i] * u[j]).collect()).collect();
+            let d: Vec<f64> = (0..n).map(|i| lam(rng).abs() + i as f64 * 0.25).collect();
+            for i in 0..n { for j in 0..n { a[i][j] = (0..n).map(|k| q[i][k] * d[k] * q[j][k]).sum(); } }
+            for i in 0..n { for j in 0..i { a[i][j] = a[j][i]; } }
+            for k in 0..n { vs.push((0..n).map(|i| q[i][k]).collect()); } }
+        "tri2" => { tri_block(rng, &mut a, 0, &mut vs, n); }
+        "gen2" => { // V Lambda V^-1 with V = [[1, p], [q, 1]], p q != 1, small integers: exact entries
+            let (p, q) = ([1.0, 2.0, -1.0, 0.5][rng.gen_range(0..4)], [0.0, 0.5, -0.5, 0.25][rng.gen_range(0..4)]);
+            let det = 1.0 - p * q; let (l1, l2) = ([1.0, 2.0, 3.0][rng.gen_range(0..3)], [4.0, 5.0, 7.0][rng.gen_range(0..3)]);
+            a[0][0] = (l1 - l2 * p * q) / det; a[0][1] = (l2 - l1) * p / det; a[1][0] = (l1 - l2) * q / det; a[1][1] = (l2 - l1 * p * q) / det;
+            vs.push(vec![1.0, q]); vs.push(vec![p, 1.0]); }
+        "tri" => { for i in 0..n { a[i][i] = (i + 1) as f64 * [1.0, 1.5, 2.0][rng.gen_range(0..3)]; for j in i + 1..n { a[i][j] = [1.0, -1.0, 0.5, 2.0][rng.gen_range(0..4)]; } }
+            // eigenvector k by back substitution on (A - l_k I) v = 0 with v_k = 1, v_i = 0 for i > k
+            for k in 0..n { let mut v = vec![0.0; n]; v[k] = 1.0; for i in (0..k).rev() { let s: f64 = (i + 1..=k).map(|j| a[i][j] * v[j]).sum(); v[i] = s / (a[k][k] - a[i][i]); } vs.push(v); } }
+        "blocks" => { for bk in 0..n / 2 { tri_block(rng, &mut a, 2 * bk, &mut vs, n); } }
+        other => { eprintln!("TOOL-ERROR unknown eig shape {}", other); std::process::exit(2) }
+    }
+    if rng.gen_bool(0.3) { let e = 2f64.powi(rng.gen_range(-8..=8)); for r in a.iter_mut() { for v in r.iter_mut() { *v *= e; } } }
+    let m = vs.len();
+    // eigenvectors i, j from the same 2x2 block where blocks matter; k anywhere
+    let i = rng.gen_range(0..m); let j = if es == "blocks" { i ^ 1 } else { (i + 1 + rng.gen_range(0..m - 1)) % m }; let k = rng.gen_range(0..m);
+    let delta = 10f64.powi(-(geti(case, "de") as i32)) * [1.0, 3.7, 0.6][rng.gen_range(0..3)];
+    let dot = |x: &Vec<f64>, y: &Vec<f64>| -> f64 { x.iter().zip(y).map(|(p, q)| p * q).sum() };
+    let mut b: Vec<f64> = match gets(case, "bm") {
+        "sum" => (0..n).map(|t| vs[i][t] + delta * vs[j][t]).collect(),
+        "sum3" => (0..n).map(|t| vs[i][t] + vs[j][t] + delta * vs[k][t]).collect(),
+        _ => { let c = dot(&vs[j], &vs[i]) / dot(&vs[i], &vs[i]); (0..n).map(|t| vs[j][t] - c * vs[i][t] + delta * vs[i][t]).collect() }
+    };
+    let bs = 10f64.powi(geti(case, "rhs_e") as i32); for v in b.iter_mut() { *v *= bs; }
+    let x0: Vec<f64> = if gets(case, "guess") == "zero" { vec![0.0; n] } else { (0..n).map(|_| rng.gen_range(-1.0..=1.0) * delta * bs).collect() };
+    let mut trip = trip_of(&a); order_triplets(rng, &mut trip);
+    Sys { n, trip, b, x0, kap: 0.0, ainv: 0.0, xref: None }
+}
+
+/// Independent decimal scales for the three arguments (C08 implication only): A = 10^ae * A0 (A0 well conditioned, strictly
+/// dominant, SPD or nonsymmetric), b = 10^be * random, x0 = 10^xe * random (never zero).  The generator keeps A*x0, b, the
+/// solution and the squares of ||b|| and tol*||b|| inside the normal range, so that the unmodified solvers' own norms are exact.
+fn build_scales(case: &Value) -> Sys {
+    let n = getu(case, "n");
+    let mut rng = rng(geti(case, "seed") as u64, 14); let rng = &mut rng;
+    let spd = gets(case, "base") == "spd";
+    let sa = 10f64.powi(geti(case, "ae") as i32);
+    let mut a = vec![vec![0.0f64; n]; n];
+    let th = rng.gen_range(0.1..=0.4);
+    for i in 0..n { a[i][i] = rng.gen_range(1.0..=4.0); }
+    for i in 0..n { for j in i + 1..n { if j == i + 1 || rng.gen_bool(0.2) {
+        let v = sgn(rng) * rng.gen_range(0.3..=1.0) * th * a[i][i].min(a[j][j]) / 3.0;
+        a[i][j] = v; a[j][i] = if spd { v } else { sgn(rng) * rng.gen_range(0.3..=1.0) * th * a[i][i].min(a[j][j]) / 3.0 }; } } }
+    for r in a.iter_mut() { for v in r.iter_mut() { *v *= sa; } }
+    let sb = 10f64.powi(geti(case, "be") as i32); let sx = 10f64.powi(geti(case, "xe") as i32);
+    let b: Vec<f64> = (0..n).map(|_| sgn(rng) * rng.gen_range(0.2..=1.0) * sb).collect();
+    let x0: Vec<f64> = (0..n).map(|_| sgn(rng) * rng.gen_range(0.2..=1.0) * sx).collect();
+    let mut trip = trip_of(&a); order_triplets(rng, &mut trip);
+    Sys { n, trip, b, x0, kap: 0.0, ainv: 0.0, xref: None }
+}
+
 pub fn build(case: &Value) -> Sys {
     let guess = gets(case, "guess").to_string();
     if case.get("A").is_some() {
@@ -218,6 +316,8 @@ pub fn build(case: &Value) -> Sys {
     }
     let fam = gets(case, "fam").to_string();
     if fam == "struct" { return build_struct(case); }
+    if fam == "eig" { return build_eig(case); }
+    if fam == "scales" { return build_scales(case); }
     let n = getu(case, "n");
     let mut rng = rng(geti(case, "seed") as u64, 7);
     let rng = &mut rng;
@@ -391,6 +491,8 @@ pub fn build(case: &Value) -> Sys {
     let x0: Vec<f64> = match guess.as_str() {
         "zero" => vec![0.0; n],
         "exact" => if rhs == "zero" { vec![0.0; n] } else { xstar.clone() },
+        // a guess at distance 10^gd (in units of the solution's scale) from the solution
+        "far" => { let g = xs * 10f64.powi(geti(case, "gd") as i32); (0..n).map(|_| sgn(rng) * rng.gen_range(0.3..=1.0) * g).collect() }
         // zero right-hand side: the solver's test is absolute (||r|| <= tol), so the guess is scaled to give ||r0|| of order <= 1
         _ => { let g = if rhs == "zero" { pow10(rng, -3.0, 0.0) / a.iter().flatten().fold(f64::MIN_POSITIVE, |m, v| m.max(v.abs())) / (n as f64).sqrt() } else { xs };
                (0..n).map(|_| rng.gen_range(-1.0..=1.0) * g).collect() }
@@ -692,6 +794,60 @@ fn gen_upw(quick: bool, rng: &mut StdRng, push: &mut dyn FnMut(Value)) {
     }
 }
 
+/// one-step-collapse family: every shape x right-hand-side mode x delta 1e-4..1e-13 x solver variant, small tolerances
+fn gen_eig(quick: bool, rng: &mut StdRng, push: &mut dyn FnMut(Value)) {
+    for _rep in 0..(if quick { 1 } else { 6 }) {
+        for es in EIG_SHAPES { for bm in ["sum", "sum3", "perp"] { for de in 4..=13i64 { for (kind, itol) in KINDS {
+            // the nonsymmetric 2x2 shapes (where one step can collapse an O(1) residual) get three extra matrices at small tolerances
+            let extra = if matches!(es, "tri2" | "gen2" | "blocks") { 3 } else { 0 };
+            for rep in 0..=extra { for guess in ["zero", "small"] {
+                if guess == "small" && rng.gen_bool(0.5) { continue; }
+                push(json!({"mode": "c08", "fam": "eig", "es": es, "bm": bm, "de": de, "n": rng.gen_range(2..=6), "seed": rng.gen_range(0..1i64 << 30), "kind": kind, "itol": itol,
+                            "budget": ([2, 10, 1000][rng.gen_range(0..3)]), "tol": if rep == 0 { rand_tol(rng, 6, 12) } else { rand_tol(rng, 9, 12) }, "rhs_e": ([0, 0, -5, 7][rng.gen_range(0..4)]), "guess": guess}));
+            } }
+        } } } }
+    }
+}
+
+/// independent scales of x0, A and b: every admissible triple of decimal exponents x solver variant
+fn gen_scales(quick: bool, rng: &mut StdRng, push: &mut dyn FnMut(Value)) {
+    let ex = [-170i64, -120, -80, -30, 0, 30, 80, 120, 150];
+    let eb = [-120i64, -80, -30, 0, 30, 80, 120];
+    for _rep in 0..(if quick { 1 } else { 5 }) {
+        for xe in ex { for ae in ex { for be in eb {
+            // A*x0 and the solution 10^(be-ae) stay normal numbers, and so does ||A|| * ||x|| used by the drift unit
+            if (ae + xe).abs() > 280 || (be - ae).abs() > 280 { continue; }
+            for (kind, itol) in KINDS {
+                if quick && rng.gen_range(0..2) == 0 { continue; }
+                push(json!({"mode": "c08", "fam": "scales", "base": (["spd", "dd"][rng.gen_range(0..2)]), "n": rng.gen_range(3..=12), "seed": rng.gen_range(0..1i64 << 30), "xe": xe, "ae": ae, "be": be,
+                            "kind": if kind == "cg" { "cg" } else { kind }, "itol": itol, "budget": ([50, 200, 1000][rng.gen_range(0..3)]), "tol": rand_tol(rng, 3, 12), "guess": "scaled"}));
+            }
+        } } }
+    }
+}
+
+/// C09 accuracy clause with initial guesses far from the solution (distance 1e3, 1e6, 1e9 in units of the solution's scale):
+/// the stopping test is relative to |b|, not to |r0|.  The tolerance is kept >= 1e-12 x distance (below that the true residual
+/// is limited by the rounding of A*x0, not by the solver).
+fn gen_far(quick: bool, rng: &mut StdRng, push: &mut dyn FnMut(Value)) {
+    let fams = ["spd", "dd", "rcs", "spd3"];
+    for i in 0..(if quick { 900 } else { 9000 }) {
+        let fam = fams[i % 4];
+        let sub = rng.gen_range(0..7i64);
+        let spd = fam.starts_with("spd") || (fam == "rcs" && sub == 6);
+        let (kind, itol) = if spd { KINDS[(i / 4) % 5] } else { KINDS[1 + (i / 4) % 4] };
+        let gd = [3i64, 6, 9][(i / 20) % 3];
+        let n = if fam == "rcs" { rng.gen_range(3..=60usize) } else { rng.gen_range(1..=60usize) };
+        // solve_qmr cannot reduce the residual by more than about 1e-12 |r0| (the attainable-accuracy stall recorded in known_findings.json):
+        // for QMR the reduction asked for is kept <= 1e-10 (distance 1e7 instead of 1e9)
+        let q = kind == "qmr";
+        let gd = if q && gd == 9 { 7 } else { gd };
+        let tol = match gd { 3 => rand_tol(rng, 3, if q { 7 } else { 9 }), 6 => rand_tol(rng, 3, if q { 4 } else { 6 }), _ => json!({"m": 1, "e": 3}) };
+        push(json!({"mode": "c09", "fam": fam, "sub": sub, "n": n, "seed": rng.gen_range(0..1i64 << 30), "kind": kind, "itol": itol, "budget": 2000,
+                    "tol": tol, "rhs": (["rand", "ax"][rng.gen_range(0..2)]), "rhs_e": rng.gen_range(-8..=8), "guess": "far", "gd": gd}));
+    }
+}
+
 /// sequences on one Sparse object (mode seq08 / seq09): two in-place mutations, all solvers after each
 fn gen_seq(quick: bool, mode: &str, rng: &mut StdRng, push: &mut dyn FnMut(Value)) {
     let muts = ["over_diag", "over_off", "new", "scale", "transpose"];
@@ -734,8 +890,9 @@ pub fn gen(tier: &str, seed: u64, out: &mut Out) {
     let mut cid = 0i64;
     let mut cases: Vec<Value> = vec![];
     { let mut push = |mut c: Value| { cid += 1; c["cid"] = json!(cid); c["suite"] = json!("krylov"); cases.push(c); };
-      if mode != "c09" && mode != "upw" { let mut r = rng(seed, 8); gen_c08(quick, &mut r, &mut push); gen_struct(quick, &mut r, &mut push); gen_seq(quick, "seq08", &mut r, &mut push); }
+      if mode != "c09" && mode != "upw" && mode != "far" { let mut r = rng(seed, 8); gen_c08(quick, &mut r, &mut push); gen_struct(quick, &mut r, &mut push); gen_seq(quick, "seq08", &mut r, &mut push); gen_eig(quick, &mut r, &mut push); gen_scales(quick, &mut r, &mut push); }
       if mode == "upw" { let mut r = rng(seed, 10); gen_upw(quick, &mut r, &mut push); }
-      else if mode != "c08" { let mut r = rng(seed, 9); gen_c09(quick, &mut r, &mut push); gen_seq(quick, "seq09", &mut r, &mut push); let mut r = rng(seed, 10); gen_upw(quick, &mut r, &mut push); } }
+      else if mode == "far" { let mut r = rng(seed, 15); gen_far(quick, &mut r, &mut push); }
+      else if mode != "c08" { let mut r = rng(seed, 9); gen_c09(quick, &mut r, &mut push); gen_seq(quick, "seq09", &mut r, &mut push); let mut r = rng(seed, 10); gen_upw(quick, &mut r, &mut push); let mut r = rng(seed, 15); gen_far(quick, &mut r, &mut push); } }
     for c in &cases { out.raw(c); }
 }
